@@ -6,11 +6,10 @@ Local Open Scope Q_scope.
 
 Definition csr := list (list (nat * Q)).
 
-(* m.multiply(filt) with filt = (col < row): keeps the stored entries of the strict lower
-   triangle; an elementwise product never stores a zero, so stored zero distances vanish *)
+(* the stored entries of the strict lower triangle (col < row), row-major, explicit zeros kept
+   (co-located points): csr_matrix((data[filt], (row[filt], col[filt]))) with filt = col < row *)
 Definition tri_row (i : nat) (row : list (nat * Q)) : list (nat * nat * Q) :=
-  map (fun e => (i, fst e, snd e))
-      (filter (fun e => Nat.ltb (fst e) i && negb (Qeq_bool (snd e) 0)) row).
+  map (fun e => (i, fst e, snd e)) (filter (fun e => Nat.ltb (fst e) i) row).
 
 Fixpoint tri_lower_from (i : nat) (m : csr) : list (nat * nat * Q) :=
   match m with
@@ -25,13 +24,3 @@ Definition sparse_distance (m : csr) : list Q := map snd (tri_lower m).
 (* |Vrow.data - Vcol.data| : for the k-th stored entry (row i, col j): |v[i] - v[j]| *)
 Definition sparse_diffs (m : csr) (v : list Q) : list Q :=
   map (fun e => Qabs (nth (fst (fst e)) v 0 - nth (snd (fst e)) v 0)) (tri_lower m).
-
-(* what a lossless extraction of the strict lower triangle would give (specification) *)
-Definition tri_row_spec (i : nat) (row : list (nat * Q)) : list (nat * nat * Q) :=
-  map (fun e => (i, fst e, snd e)) (filter (fun e => Nat.ltb (fst e) i) row).
-Fixpoint tri_lower_spec_from (i : nat) (m : csr) : list (nat * nat * Q) :=
-  match m with
-  | [] => []
-  | row :: r => tri_row_spec i row ++ tri_lower_spec_from (S i) r
-  end.
-Definition tri_lower_spec (m : csr) : list (nat * nat * Q) := tri_lower_spec_from 0 m.
